@@ -47,6 +47,12 @@ SNIPPETS = [
     "x = 1\n\x0cy = 2\n",
     "\x0c\ndef f():\n    pass\n\x0c\n",
     "def f():\n    pass\n\x0c    x = 1\n",
+    "@dec\nasync def f(): return await -\nx = 1\ny = 2\n",
+    "class A:\n    @dec\n    async def f(self): x = (\n    def g(self): bar.-\nz = 3\n",
+    "@a\n@b\nasync def g(): bar.-\n\ndef h(): return 1\n",
+    "class A:\r    def f(self):\r        x = (1,\r    def g(self):\r        pass\rz = 1\r",
+    "def f():\r    y = [a,\rclass B:\r    pass\rw = 2\r",
+    "if x:\r    foo(a,\r    def g(): pass\r    b = 1\rc = 2\r",
     "class Page:\n    def first(self):\n        return 1\n   \x0cdef second(self):\n        return 2\n",
     "class Page:\n    def first(self):\n        return 1\n\x0c    def second(self):\n        return 2\nx = 1\n",
     "def a():\n    if x:\n        y\n \x0c  z = 1\n    w = 2\n",
